@@ -1,7 +1,270 @@
-/- Model `Dedup` (driver token `dedup`) — stub, to be filled in. -/
-namespace Stab.Dedup
+/-
+  Model `Dedup` (driver token `dedup`) — the in-memory bloom filter of `stabilize.queue.dedup` and the
+  duplicate check of `QueueProcessorMixin._handle_message` / `_hydrate_deduplicator`.
 
-/-- driver entry: the rest of the request line after the model token -/
-def drive (_rest : String) : String := "unimplemented"
+  Code mirrored:
+    queue/dedup.py                    BloomDeduplicator: bytearray of ceil(size/8) bytes, `_get_bit`/`_set_bit`
+                                      (byte = pos // 8, bit = pos % 8), `maybe_seen`, `mark_seen`, `reset`,
+                                      `hydrate`, `authoritative`, `fill_ratio`, `should_reset(0.7)`
+    queue/processor/mixins.py         `_handle_message` (both settings of `dedup_trust_negative_cache`),
+                                      `_hydrate_deduplicator` (capacity check on `expected_items`)
+    persistence/sqlite/operations.py  `is_message_processed`, `mark_message_processed` (INSERT OR IGNORE),
+                                      `get_processed_message_ids(limit)`, `cleanup_old_processed_messages`
+
+  Parameters (trusted to be what they are, not modelled): `pos : Id → List Nat`, the k hash values of an id
+  (`(h1 + i*h2)` from md5/sha1 — only "a deterministic function of the id" is used); the filter's bit size and
+  capacity (`expected_items`) as computed by `_optimal_size` / the constructor argument; the wall clock
+  (an `aged` flag on a delivery stands for "older than max_age", the other trigger of `should_reset`).
+-/
+import Stab.Model.Basic
+
+namespace Stab.Dedup
+open Stab
+
+abbrev Id := Nat
+
+/-! ### the filter -/
+
+/-- `bool(byte & (1 << bit_idx))` -/
+def getBit (b i : Nat) : Bool := (b &&& (1 <<< i)) != 0
+
+/-- `byte |= 1 << bit_idx` -/
+def setBit (b i : Nat) : Nat := b ||| (1 <<< i)
+
+structure Bloom where
+  size : Nat              -- `_size` (number of bits)
+  bytes : List Nat        -- `_bit_array`, `(size + 7) // 8` bytes
+  count : Nat             -- `_items_added`
+  auth : Bool             -- `_authoritative`
+  deriving Repr, DecidableEq
+
+def nbytes (size : Nat) : Nat := (size + 7) / 8
+
+/-- a freshly constructed filter -/
+def Bloom.fresh (size : Nat) : Bloom :=
+  { size := size, bytes := List.replicate (nbytes size) 0, count := 0, auth := false }
+
+/-- `_get_bit(pos)` — an index past the array would be an IndexError in Python; `none` here -/
+def Bloom.getPos (b : Bloom) (p : Nat) : Option Bool := (b.bytes[p / 8]?).map (fun byte => getBit byte (p % 8))
+
+/-- `_set_bit(pos)` -/
+def setPosBytes (bytes : List Nat) (p : Nat) : List Nat :=
+  match bytes[p / 8]? with
+  | some byte => bytes.set (p / 8) (setBit byte (p % 8))
+  | none => bytes
+
+/-- `_get_hash_positions`: the hash values reduced `% self._size` -/
+def positions (pos : Id → List Nat) (size : Nat) (id : Id) : List Nat := (pos id).map (· % size)
+
+/-- `maybe_seen`: every position is set -/
+def Bloom.maybeSeen (pos : Id → List Nat) (b : Bloom) (id : Id) : Bool :=
+  (positions pos b.size id).all (fun p => b.getPos p == some true)
+
+def setAll (bytes : List Nat) (ps : List Nat) : List Nat := ps.foldl setPosBytes bytes
+
+/-- `mark_seen` -/
+def Bloom.markSeen (pos : Id → List Nat) (b : Bloom) (id : Id) : Bloom :=
+  { b with bytes := setAll b.bytes (positions pos b.size id), count := b.count + 1 }
+
+/-- `reset` -/
+def Bloom.reset (b : Bloom) : Bloom :=
+  { b with bytes := List.replicate (nbytes b.size) 0, count := 0, auth := false }
+
+/-- `hydrate(ids)`: every id is set, then authority is granted -/
+def Bloom.hydrate (pos : Id → List Nat) (b : Bloom) (ids : List Id) : Bloom :=
+  { (ids.foldl (Bloom.markSeen pos) b) with auth := true }
+
+/-- number of set bits (`sum(bin(b).count("1"))`), bytes are < 256 -/
+def popByte (byte : Nat) : Nat := ((List.range 8).filter (fun i => getBit byte i)).length
+
+def Bloom.setBits (b : Bloom) : Nat := (b.bytes.map popByte).sum
+
+/-- `should_reset(threshold=0.7)`: `fill_ratio > 0.7`, or the filter is older than its max age -/
+def Bloom.shouldReset (b : Bloom) (aged : Bool) : Bool := aged || decide (10 * b.setBits > 7 * b.size)
+
+/-! ### the processor -/
+
+structure Cfg where
+  size : Nat          -- bits of the process-wide filter
+  cap : Nat           -- its `expected_items`
+  trust : Bool        -- `dedup_trust_negative_cache`
+  deriving Repr
+
+/-- what the handler does with the delivered message -/
+inductive Outcome where
+  | commitReturn   -- commits its effects together with the processed mark, returns
+  | commitRaise    -- commits its effects together with the processed mark, then raises
+  | raiseBefore    -- raises before committing anything
+  | plainReturn    -- returns without marking (the processor's own mark follows)
+  deriving DecidableEq, Repr
+
+inductive Op where
+  | handle (id : Id) (o : Outcome) (aged : Bool)   -- `_handle_message` on a delivery of message `id`
+  | restart                                        -- new process: fresh filter, `QueueProcessor.__init__` hydrates
+  | rotate                                         -- `reset()` + `_hydrate_deduplicator()`
+  | peerMarks (id : Id)                            -- another worker inserts into processed_messages
+  | cleanup (ids : List Id)                        -- retention sweep deletes these processed ids
+  deriving Repr
+
+structure State where
+  bloom : Bloom
+  store : List Id                 -- processed_messages (a set: INSERT OR IGNORE)
+  runs : List Id                  -- ghost: one entry per handler invocation, newest first
+  deriving Repr
+
+def storeAdd (st : List Id) (id : Id) : List Id := if st.contains id then st else st ++ [id]
+
+/-- `_hydrate_deduplicator`: asks for `cap + 1` ids; more than `cap` ⇒ the filter stays as it is -/
+def hydrateFromStore (pos : Id → List Nat) (cap : Nat) (store : List Id) (b : Bloom) : Bloom :=
+  if store.length > cap then b else b.hydrate pos store
+
+def rotateBloom (pos : Id → List Nat) (cap : Nat) (store : List Id) (b : Bloom) : Bloom :=
+  hydrateFromStore pos cap store b.reset
+
+def init (c : Cfg) : State := { bloom := Bloom.fresh c.size, store := [], runs := [] }
+
+/-- does `_handle_message` consult `is_message_processed`? -/
+def consultsStore (pos : Id → List Nat) (c : Cfg) (b : Bloom) (id : Id) : Bool :=
+  b.maybeSeen pos id || !(c.trust && b.auth)
+
+/-- is the delivery acknowledged without running the handler? -/
+def skips (pos : Id → List Nat) (c : Cfg) (s : State) (id : Id) : Bool :=
+  consultsStore pos c s.bloom id && s.store.contains id
+
+inductive Obs where
+  | skipped | ran | other
+  deriving DecidableEq, Repr
+
+def step (pos : Id → List Nat) (c : Cfg) (s : State) : Op → State × Obs
+  | .handle id o aged =>
+    if skips pos c s id then (s, .skipped) else
+    -- rotation check, before the handler runs
+    let b1 := if s.bloom.shouldReset aged then rotateBloom pos c.cap s.store s.bloom else s.bloom
+    let runs := id :: s.runs
+    match o with
+    | .raiseBefore => ({ s with bloom := b1, runs := runs }, .ran)
+    | .commitRaise => ({ bloom := b1, store := storeAdd s.store id, runs := runs }, .ran)
+    | .commitReturn | .plainReturn =>
+      -- handler returned: `dedup.mark_seen` + `store.mark_message_processed`
+      ({ bloom := b1.markSeen pos id, store := storeAdd s.store id, runs := runs }, .ran)
+  | .restart => ({ s with bloom := hydrateFromStore pos c.cap s.store (Bloom.fresh c.size) }, .other)
+  | .rotate => ({ s with bloom := rotateBloom pos c.cap s.store s.bloom }, .other)
+  | .peerMarks id => ({ s with store := storeAdd s.store id }, .other)
+  | .cleanup ids => ({ s with store := s.store.filter (fun x => !ids.contains x) }, .other)
+
+def run (pos : Id → List Nat) (c : Cfg) (s : State) : List Op → State
+  | [] => s
+  | op :: ops => run pos c (step pos c s op).1 ops
+
+/-- number of handler invocations for `id` -/
+def runCount (s : State) (id : Id) : Nat := (s.runs.filter (· == id)).length
+
+/-! ### driver
+
+  `dedup bloom size=<bits> pos=<id:p.p.p,id:p.p,...|-> ops=<op;op;...>`
+       ops: `m:<id>` mark_seen, `q:<id>` maybe_seen, `hyd:<id,id,..|->` hydrate, `reset`, `f` (set bits / should_reset)
+  `dedup proc size=<bits> cap=<n> trust=<0|1> pos=<...> ops=<op;op;...>`
+       ops: `h:<id>:<cr|cx|rx|pr>[:a]`, `restart`, `rot`, `peer:<id>`, `clean:<id,id,..>`
+-/
+
+def posTable (tbl : List (Id × List Nat)) (id : Id) : List Nat :=
+  match tbl.lookup id with
+  | some ps => ps
+  | none => []
+
+def parsePosEntry (s : String) : Option (Id × List Nat) :=
+  match s.splitOn ":" with
+  | [i, ps] => do
+    let i ← Parse.nat? i
+    let ps ← Parse.all? Parse.nat? (ps.splitOn ".")
+    pure (i, ps)
+  | _ => none
+
+def parsePos (s : String) : Option (List (Id × List Nat)) :=
+  if s == "-" then some [] else Parse.all? parsePosEntry (s.splitOn ",")
+
+def kvArg (key : String) (tok : String) : Option String :=
+  if tok.startsWith (key ++ "=") then some (tok.drop (key.length + 1)).toString else none
+
+inductive BOp where
+  | mark (id : Id) | query (id : Id) | hyd (ids : List Id) | reset | fill
+  deriving Repr
+
+def parseBOp (known : Id → Bool) (s : String) : Option BOp :=
+  match s.splitOn ":" with
+  | ["m", i] => do let i ← Parse.nat? i; if known i then pure (.mark i) else none
+  | ["q", i] => do let i ← Parse.nat? i; if known i then pure (.query i) else none
+  | ["hyd", l] => do let l ← Parse.natList? l; if l.all known then pure (.hyd l) else none
+  | ["reset"] => some .reset
+  | ["f"] => some .fill
+  | _ => none
+
+def b01 (b : Bool) : String := if b then "1" else "0"
+
+def bstep (pos : Id → List Nat) (b : Bloom) : BOp → Bloom × String
+  | .mark i => let b' := b.markSeen pos i; (b', s!"n={b'.count}")
+  | .query i => (b, b01 (b.maybeSeen pos i))
+  | .hyd l => let b' := b.hydrate pos l; (b', s!"auth={b01 b'.auth} n={b'.count}")
+  | .reset => let b' := b.reset; (b', s!"auth={b01 b'.auth} n={b'.count}")
+  | .fill => (b, s!"bits={b.setBits} sr={b01 (b.shouldReset false)} auth={b01 b.auth}")
+
+def brun (pos : Id → List Nat) (b : Bloom) : List BOp → List String
+  | [] => []
+  | op :: ops => (bstep pos b op).2 :: brun pos (bstep pos b op).1 ops
+
+def parseOutcome : String → Option Outcome
+  | "cr" => some .commitReturn | "cx" => some .commitRaise | "rx" => some .raiseBefore | "pr" => some .plainReturn
+  | _ => none
+
+def parseOp (known : Id → Bool) (s : String) : Option Op :=
+  match s.splitOn ":" with
+  | ["h", i, o] => do let i ← Parse.nat? i; let o ← parseOutcome o; if known i then pure (.handle i o false) else none
+  | ["h", i, o, "a"] => do let i ← Parse.nat? i; let o ← parseOutcome o; if known i then pure (.handle i o true) else none
+  | ["restart"] => some .restart
+  | ["rot"] => some .rotate
+  | ["peer", i] => do let i ← Parse.nat? i; if known i then pure (.peerMarks i) else none
+  | ["clean", l] => (Parse.natList? l).map .cleanup
+  | _ => none
+
+def showStep (pos : Id → List Nat) (s' : State) (o : Obs) (op : Op) : String :=
+  let tail := s!"auth={b01 s'.bloom.auth} n={s'.bloom.count}"
+  match op, o with
+  | .handle id _ _, .skipped => s!"skip {tail} seen={b01 (s'.bloom.maybeSeen pos id)}"
+  | .handle id _ _, _ => s!"run {tail} seen={b01 (s'.bloom.maybeSeen pos id)}"
+  | _, _ => tail
+
+def prun (pos : Id → List Nat) (c : Cfg) (s : State) : List Op → List String
+  | [] => []
+  | op :: ops =>
+    let r := step pos c s op
+    showStep pos r.1 r.2 op :: prun pos c r.1 ops
+
+def drive (rest : String) : String :=
+  match rest.splitOn " " with
+  | ["bloom", sz, ps, ops] =>
+    let parsed : Option (Nat × List (Id × List Nat) × List BOp) := do
+      let sz ← (kvArg "size" sz) >>= Parse.nat?
+      let tbl ← (kvArg "pos" ps) >>= parsePos
+      let ops ← kvArg "ops" ops
+      let known := fun i => (tbl.lookup i).isSome
+      let ops ← Parse.all? (parseBOp known) (Parse.splitNE ops ";")
+      if sz = 0 then none else pure (sz, tbl, ops)
+    match parsed with
+    | some (sz, tbl, ops) => "|".intercalate (brun (posTable tbl) (Bloom.fresh sz) ops)
+    | none => "bad-request"
+  | ["proc", sz, cap, tr, ps, ops] =>
+    let parsed : Option (Cfg × List (Id × List Nat) × List Op) := do
+      let sz ← (kvArg "size" sz) >>= Parse.nat?
+      let cap ← (kvArg "cap" cap) >>= Parse.nat?
+      let tr ← (kvArg "trust" tr) >>= Parse.bool?
+      let tbl ← (kvArg "pos" ps) >>= parsePos
+      let ops ← kvArg "ops" ops
+      let known := fun i => (tbl.lookup i).isSome
+      let ops ← Parse.all? (parseOp known) (Parse.splitNE ops ";")
+      if sz = 0 then none else pure ({ size := sz, cap := cap, trust := tr }, tbl, ops)
+    match parsed with
+    | some (c, tbl, ops) => "|".intercalate (prun (posTable tbl) c (init c) ops)
+    | none => "bad-request"
+  | _ => "bad-request"
 
 end Stab.Dedup
